@@ -408,3 +408,58 @@ Proof. exact source_transfer_gene. Qed.
 Theorem C03_source_transfer_unweighted : forall i ws wm bc pm names,
   fn_transfer_step i false ws wm bc pm (kept_genes names) = (gene_field names, inject_Z bc, pm).
 Proof. exact source_transfer_unweighted. Qed.
+
+(* ---- source tie: _do_segmentation's weight rule per row (`if min_weight: weight_too_low = (w < min_weight) | w.isna()
+   else: weight_too_low = (w == 0) | w.isna()`), translated from the Python source on every run
+   (Gen/FnSegWeightMask.v fn_weight_too_low): it is the model's weight_too_low, the third factor of `survives` *)
+From CNV Require Import Gen.FnSegWeightMask Proofs.FnSegWeightMask.
+
+Theorem C03_source_weight_mask : forall (min_weight : Q) (b : bin),
+  fn_weight_too_low min_weight (b_weight b) = weight_too_low min_weight b.
+Proof. exact source_weight_mask. Qed.
+
+Theorem C03_source_weight_survives : forall skip_low (min_weight : Q) outlier (b : bin),
+  survives skip_low min_weight outlier b
+  = negb (skip_low && low_coverage b) && negb outlier && negb (fn_weight_too_low min_weight (b_weight b)).
+Proof. exact source_weight_survives. Qed.
+
+(* ---- source tie: transfer_fields' endpoint stretch (the two `if <chromosome test>: segments.data.iloc[K, get_loc(col)] = v`
+   statements), translated from the Python source on every run (Gen/FnSegStretch.v fn_stretch: the first row's start and the
+   last row's end afterwards).  Written back into the rows (code_stretch) it is the model's raw_stretch_lo / raw_stretch_hi,
+   each exactly when its chromosome test holds *)
+From CNV Require Import Gen.FnSegStretch Proofs.FnSegStretch.
+
+Theorem C03_source_stretch_rows : forall sc0 bc0 scl bcl bs be w t,
+  code_stretch sc0 bc0 scl bcl bs be (w :: t)
+  = (if String.eqb scl bcl then raw_stretch_hi be else (fun l => l))
+      ((if String.eqb sc0 bc0 then raw_stretch_lo bs else (fun l => l)) (w :: t)).
+Proof. exact source_stretch_rows. Qed.
+
+(* a piece within one chromosome: transfer_fields aggregates over exactly the rows the generated stretch leaves *)
+Theorem C03_source_stretch_transfer : forall c cl (b : bin) bt ws,
+  transfer c (b :: bt) ws
+  = aggregate c (b :: bt) (code_stretch c c cl cl (b_lo b) (b_hi (last bt b)) ws).
+Proof. exact source_stretch_transfer. Qed.
+
+(* first / last row on another chromosome than the bins' first / last (whole-table methods): left alone *)
+Theorem C03_source_stretch_other : forall sc0 bc0 scl bcl bs be ws,
+  String.eqb sc0 bc0 = false -> String.eqb scl bcl = false ->
+  code_stretch sc0 bc0 scl bcl bs be ws = ws.
+Proof. exact source_stretch_other. Qed.
+
+(* ---- source tie: drop_outliers, the WHOLE function read per row as "the bin is kept" (an empty table is returned as it is,
+   otherwise "return cnarr[~outlier_mask]"), translated from the Python source on every run (Gen/FnSegOutliers.v
+   fn_drop_outliers_keep): on a table with a row it is negb outlier, and the model's survives is the conjunction of the
+   generated bits of drop_outliers and of the weight rule *)
+From CNV Require Import Gen.FnSegOutliers Proofs.FnSegOutliers.
+
+Theorem C03_source_drop_outliers : forall (nrows : Z) (outlier : bool) (n_outliers : Z),
+  nrows <> 0 -> fn_drop_outliers_keep nrows outlier n_outliers = negb outlier.
+Proof. exact source_drop_outliers. Qed.
+
+Theorem C03_source_survives_bits : forall skip_low (min_weight : Q) (outlier : bool) (b : bin) (nrows n_outliers : Z),
+  nrows <> 0 ->
+  survives skip_low min_weight outlier b
+  = negb (skip_low && low_coverage b) && fn_drop_outliers_keep nrows outlier n_outliers
+    && negb (fn_weight_too_low min_weight (b_weight b)).
+Proof. exact source_survives_bits. Qed.
